@@ -135,6 +135,7 @@ FINDING_FAMILIES = {
 }
 
 TEMPLATES = [
+    " x\r\n\r\n ", "\n{ }\r\n\r\n ", "  { a = 1; }\r\n\r\n\r\n", "\t\n[ 1 ]\n\n\n   ", "\r\n\r\nx\r\n\r\n",
     "{ \"a$b\" = 1; }", "{ \"$\" = 1; \"$$\" = 2; }", "{ pkgs.\"price$\" = 1; }", "let \"a$b\" = 1; in x", "{ \"a\\$b\" = 1; \"${x}$\" = 2; }",
     "{ a = /* default */ 1; }", "{ a /* c */ = 1; }", "let a = /* c */ 1; in a",
     "{ a = 1; b = \"s\"; }", "{\n  a = 1; # c\n  b.c = [ 1 2 ];\n}\n", "let a = 1; in a", "let\n  a = 1;\n  inherit (b) c;\nin\n{ inherit a; }\n",
